@@ -37,6 +37,9 @@ def conc(model, v, seen=None):
         return z3.is_true(zval(model, v.z))
     if isinstance(v, SStrList):
         return seq_to_list(model, v.z)
+    if type(v).__name__ == "SRec":
+        r = zval(model, v.z)
+        return {"__rec__": v.kind, "id": r.as_long() if z3.is_int_value(r) else 0}
     if isinstance(v, tuple):
         return tuple(conc(model, x, seen) for x in v)
     if isinstance(v, frozenset):
